@@ -439,6 +439,7 @@ func runScanProfile(c *Ctx, p scanProfile) {
 		if p.Relational {
 			for gk, idxs := range byGraph {
 				var first map[string]int64
+				firstIdx := -1
 				for _, i := range idxs {
 					o := apiObserved(scs[i], &results[i])
 					if o.Exit != 0 {
@@ -452,12 +453,13 @@ func runScanProfile(c *Ctx, p scanProfile) {
 					}
 					if first == nil {
 						first = cur
+						firstIdx = i
 						continue
 					}
 					for _, f := range model.NumericFields {
 						if cur[f] != first[f] {
 							c.AddViolation(Violation{Predicate: "order_dependent:" + f, Spec: "Scan!C09_FunctionOfGraph",
-								Kind: "scan", Input: map[string]interface{}{"mode": "api", "case": scs[i]},
+								Kind: "scan", Input: map[string]interface{}{"mode": "api", "case": scs[i], "other": scs[firstIdx]},
 								Expected: first, Observed: map[string]interface{}{"json": o.JSON}})
 							break
 						}
@@ -610,8 +612,9 @@ func (s *scanRun) judgeAndValidate() {
 func replayScan(c *Ctx, raw json.RawMessage) bool {
 	var rp struct {
 		Input struct {
-			Mode string         `json:"mode"`
-			Case cases.ScanCase `json:"case"`
+			Mode  string          `json:"mode"`
+			Case  cases.ScanCase  `json:"case"`
+			Other *cases.ScanCase `json:"other"`
 		} `json:"input"`
 		Predicate string `json:"predicate"`
 	}
@@ -662,9 +665,30 @@ func replayScan(c *Ctx, raw json.RawMessage) bool {
 	}
 	fl := fails(v)
 	if strings.HasPrefix(rp.Predicate, "order_dependent") {
-		return len(fl) > 0 || true && orderDependent(env, rp.Input.Case)
+		if rp.Input.Other != nil {
+			return len(fl) > 0 || differ(env, rp.Input.Case, *rp.Input.Other)
+		}
+		return len(fl) > 0 || orderDependent(env, rp.Input.Case)
 	}
 	return len(fl) > 0
+}
+
+// differ runs two delivery orders of one graph and tells whether any number differs.
+func differ(env *scanEnv, a, b cases.ScanCase) bool {
+	rs, err := runAPI(env.api, []cases.ScanCase{a, b}, 1)
+	if err != nil {
+		return false
+	}
+	x, y := apiObserved(a, &rs[0]), apiObserved(b, &rs[1])
+	if x.Exit != 0 || y.Exit != 0 {
+		return x.Exit != y.Exit
+	}
+	for _, f := range model.NumericFields {
+		if string(x.JSON[f]) != string(y.JSON[f]) {
+			return true
+		}
+	}
+	return false
 }
 
 // orderDependent re-runs a case in its own order and in index order and compares.
